@@ -3,6 +3,7 @@ CONSTANTS
   Cap = 4
   WSizes <- GenWSizes
   RSizes <- GenRSizes
+  Vias <- GenVias
   MaxOps = @@OPS@@
   Atomic = TRUE
 INVARIANT Inv
